@@ -232,6 +232,65 @@ def loader_keys():
     return res
 
 
+def loader_program():
+    """the atomic steps of `_load_from_file` in source order, as the thread model of Model/Cache.lean names them:
+    lookup (try the cache), read (the WHOLE file into a local), store (publish the complete table under the name), project.
+    Anything else that touches the cache - a placeholder stored before the read, entries added one at a time, an eviction - is a
+    step the model does not have, and the tie theorem C18Z.loader_program_gen fails."""
+    path = os.path.join(rt.REPO, 'pytorch_wavelets', 'dtcwt', 'coeffs.py')
+    src = open(path).read()
+    tree = ast.parse(src)
+    fn = next((n for n in tree.body if isinstance(n, ast.FunctionDef) and n.name == '_load_from_file'), None)
+    if fn is None:
+        raise TranslateError('_load_from_file not found in coeffs.py')
+    a0 = fn.args.args[0].arg if fn.args.args else None
+    cache = 'COEFF_CACHE'
+
+    def is_cache_sub(e):
+        return isinstance(e, ast.Subscript) and isinstance(e.value, ast.Name) and e.value.id == cache and isinstance(e.slice, ast.Name) and e.slice.id == a0
+
+    steps = []
+
+    def stmt(n, local):
+        # mat = COEFF_CACHE[basename]
+        if isinstance(n, ast.Assign) and len(n.targets) == 1 and isinstance(n.targets[0], ast.Name) and is_cache_sub(n.value):
+            local['tab'] = n.targets[0].id
+            return ['lookup']
+        # mat = dict(load(f))
+        if isinstance(n, ast.Assign) and len(n.targets) == 1 and isinstance(n.targets[0], ast.Name) and isinstance(n.value, ast.Call) \
+                and getattr(n.value.func, 'id', None) == 'dict' and len(n.value.args) == 1 and isinstance(n.value.args[0], ast.Call) \
+                and getattr(n.value.args[0].func, 'id', None) == 'load':
+            local['tab'] = n.targets[0].id
+            return ['read']
+        # COEFF_CACHE[basename] = mat
+        if isinstance(n, ast.Assign) and len(n.targets) == 1 and is_cache_sub(n.targets[0]) and isinstance(n.value, ast.Name) and n.value.id == local.get('tab'):
+            return ['store']
+        if isinstance(n, ast.With) and len(n.items) == 1 and isinstance(n.items[0].context_expr, ast.Call) \
+                and getattr(n.items[0].context_expr.func, 'id', None) == 'resource_stream':
+            return [x for b in n.body for x in stmt(b, local)]
+        if isinstance(n, ast.Try) and len(n.handlers) == 1 and getattr(n.handlers[0].type, 'id', None) == 'KeyError' and not n.orelse and not n.finalbody:
+            body = [x for b in n.body for x in stmt(b, local)]
+            if body == ['lookup']:
+                return body + [x for b in n.handlers[0].body for x in stmt(b, local)]
+            if body == ['project'] and len(n.handlers[0].body) == 1 and isinstance(n.handlers[0].body[0], ast.Raise):
+                return body
+            return body + ['other:try']
+        # return tuple(mat[k] for k in varnames)
+        if isinstance(n, ast.Return) and isinstance(n.value, ast.Call) and getattr(n.value.func, 'id', None) == 'tuple' and len(n.value.args) == 1 \
+                and isinstance(n.value.args[0], ast.GeneratorExp) and isinstance(n.value.args[0].elt, ast.Subscript) \
+                and getattr(n.value.args[0].elt.value, 'id', None) == local.get('tab'):
+            return ['project']
+        if isinstance(n, ast.Expr) and isinstance(n.value, ast.Constant):
+            return []          # docstring
+        return ['other:' + type(n).__name__]
+
+    local = {}
+    for n in fn.body:
+        steps += stmt(n, local)
+    mentions = sum(1 for n in ast.walk(tree) if isinstance(n, ast.Name) and n.id == cache)
+    return steps, mentions
+
+
 def gen_tables():
     d = os.path.join(rt.REPO, 'pytorch_wavelets', 'dtcwt', 'data')
     files = sorted(glob.glob(os.path.join(d, '*.npz')))
@@ -263,6 +322,11 @@ def gen_tables():
     lk = loader_keys()
     for fn, tuples in lk.items():
         out.append('def %s_keysets : List (List String) := [%s]' % (fn, ', '.join('[' + ', '.join('"%s"' % k for k in t) + ']' for t in tuples)))
+    steps, mentions = loader_program()
+    out.append('/-- the atomic steps of `_load_from_file`, in source order (cache hit: `lookup`, `project`) -/')
+    out.append('def loaderSteps : List String := [%s]' % ', '.join('"%s"' % x for x in steps))
+    out.append('/-- how many times the module names its cache: the definition, the lookup and the one store -/')
+    out.append('def cacheMentions : Nat := %d' % mentions)
     out.append('\nend WV.Gen\n')
     return _write(os.path.join(GEN, 'Tables.lean'), '\n'.join(out))
 
